@@ -95,7 +95,7 @@ class Prop:
     RULE = ("seeded random histories (4-30 ops: link reassignment, list and dict mutators, "
             "container reassignment, gc, drop of detached nodes, removal of the registration at a "
             "generated point) on tree-shaped graphs (fresh node at every insertion) over links "
-            "child/children/table, with one extended name of 1-3 links ('.' or ':' each) "
+            "child/children/table/group (Set; set mutators incl. those naming current members), with one extended name of 1-3 links ('.' or ':' each) "
             "registered through on_trait_change (handler arity 0, 3 or 4) and through observe; every "
             "node ever created is probed after every op; non-trivial = at least one probe was "
             "reported by both and one by neither after a structural change; distinct = distinct "
